@@ -91,6 +91,8 @@ class Ctx:
 
     def violation(self, what: str, case, detail=None, mechanism: str | None = None):
         v = {"what": what, "case": case, "detail": detail, "hashseed": os.environ.get("PYTHONHASHSEED", "")}
+        if os.environ.get("PYTHONOPTIMIZE"):
+            v["optimize"] = os.environ["PYTHONOPTIMIZE"]
         if mechanism is None:
             try:
                 mechanism = self.prop.classify(v)
@@ -144,6 +146,8 @@ def run_shard_main(pid, descfile, outfile):
                 from . import harness
                 n = harness.provoke_failures()
                 ctx.count("failing_calls_made_before_the_workload", n)
+            if not __debug__:
+                ctx.count("shards_run_as_python_-O")
             sent = None
             if getattr(prop, "SENTINELS", False):
                 from . import harness
@@ -190,10 +194,15 @@ def run_shards(pid, descs, workdir):
             json.dump(d, open(dfile, "w"))
             timeout = d.get("timeout", 900)
             t0 = time.time()
+            envk = dict(env, PYTHONHASHSEED=d.get("hashseed") or hashseeds[k % len(hashseeds)])
+            envk.pop("PYTHONOPTIMIZE", None)
+            if k % 5 == 3 and not d.get("hashseed"):
+                # every fifth shard runs as `python -O` does (assert statements are compiled away): what the
+                # library promises must not rest on an assert
+                envk["PYTHONOPTIMIZE"] = "1"
             try:
                 p = subprocess.run([PY, "-m", "rtfmon.run", "--shard", pid, dfile, ofile],
-                                   cwd=HERE, env=dict(env, PYTHONHASHSEED=d.get("hashseed") or
-                                                      hashseeds[k % len(hashseeds)]),
+                                   cwd=HERE, env=envk,
                                    timeout=timeout,
                                    stdout=subprocess.PIPE, stderr=subprocess.STDOUT)
                 out = p.stdout.decode("utf-8", "replace")[-3000:]
@@ -246,10 +255,14 @@ def main(argv=None):
     if replay:
         data = json.load(open(replay))
         hs = str(data.get("hashseed") or "0")
-        if os.environ.get("PYTHONHASHSEED") != hs:
-            # re-run under the string-hash seed the violation was observed with
-            os.execve(PY, [PY, "-m", "rtfmon.run"] + list(sys.argv[1:] if argv is None else argv),
-                      dict(os.environ, PYTHONHASHSEED=hs, PYTHONPATH=HERE + os.pathsep + os.environ.get("PYTHONPATH", "")))
+        opt = str(data.get("optimize") or "")
+        if os.environ.get("PYTHONHASHSEED") != hs or os.environ.get("PYTHONOPTIMIZE", "") != opt:
+            # re-run under the string-hash seed (and the -O setting) the violation was observed with
+            e2 = dict(os.environ, PYTHONHASHSEED=hs, PYTHONPATH=HERE + os.pathsep + os.environ.get("PYTHONPATH", ""))
+            e2.pop("PYTHONOPTIMIZE", None)
+            if opt:
+                e2["PYTHONOPTIMIZE"] = opt
+            os.execve(PY, [PY, "-m", "rtfmon.run"] + list(sys.argv[1:] if argv is None else argv), e2)
         ctx = Ctx(prop)
         prop.replay(data, ctx)
         n = sum(s["count"] for s in ctx.viol.values())
